@@ -7,7 +7,7 @@ Property theorems about `XlModel.FormulaRef` (transcription of adjust.go's
 references (all 16384 columns, all rows, every `$` combination), all edits and
 all token lists.
 -/
-import XlModel.Lemmas.FormulaRef4
+import XlModel.Lemmas.FormulaRef5
 
 namespace XlModel.Props.C07
 open XlModel XlModel.Ref XlModel.FormulaRef
@@ -74,7 +74,8 @@ theorem operand_rewrite_correct (kr : Bool) (e : Edit) (r r' : Spec.Ref) (op0 : 
         subst hs
         obtain ⟨g1, g2⟩ := hg
         obtain ⟨g1', g2'⟩ := hg'
-        exact adjustCell_single kr e op0 _ _ (runEnd_cell kr e c c' ro ro' op0 g1 hc g1' g2 hr g2')
+        exact adjustCell_single kr e op0 _ _ (runEnd_cell kr e c c' ro ro' op0 (fun op => adjCol_render kr e c c' op g1 hc g1') (shiftCol_abs kr e hc)
+          (fun op => adjRow_render kr e ro ro' op g2 hr g2') (shiftRow_abs kr e hr))
   | range c1 r1 c2 r2 =>
     simp only [Spec.shiftRef] at hs
     cases h1 : Spec.shiftCol kr e c1 with
@@ -93,9 +94,11 @@ theorem operand_rewrite_correct (kr : Bool) (e : Edit) (r r' : Spec.Ref) (op0 : 
             subst hs
             obtain ⟨g1, g2, g3, g4⟩ := hg
             obtain ⟨g1', g2', g3', g4'⟩ := hg'
-            have hX := runEnd_cell kr e c1 c1' r1 r1' op0 g1 h1 g1' g2 h2 g2'
+            have hX := runEnd_cell kr e c1 c1' r1 r1' op0 (fun op => adjCol_render kr e c1 c1' op g1 h1 g1') (shiftCol_abs kr e h1)
+              (fun op => adjRow_render kr e r1 r1' op g2 h2 g2') (shiftRow_abs kr e h2)
             have hY := runEnd_cell kr e c2 c2' r2 r2' (op0 ++ (Spec.renderCol c1' ++ Spec.renderRow r1') ++ [':'])
-              g3 h3 g3' g4 h4 g4'
+              (fun op => adjCol_render kr e c2 c2' op g3 h3 g3') (shiftCol_abs kr e h3)
+              (fun op => adjRow_render kr e r2 r2' op g4 h4 g4') (shiftRow_abs kr e h4)
             have := adjustCell_range kr e op0 _ _ _ _ hX hY
             simpa [Spec.render, List.append_assoc] using this
   | cols c1 c2 =>
@@ -110,8 +113,8 @@ theorem operand_rewrite_correct (kr : Bool) (e : Edit) (r r' : Spec.Ref) (op0 : 
         subst hs
         obtain ⟨g1, g3⟩ := hg
         obtain ⟨g1', g3'⟩ := hg'
-        have hX := runEnd_col kr e c1 c1' op0 g1 h1 g1'
-        have hY := runEnd_col kr e c2 c2' (op0 ++ Spec.renderCol c1' ++ [':']) g3 h3 g3'
+        have hX := runEnd_col kr e c1 c1' op0 (fun op => adjCol_render kr e c1 c1' op g1 h1 g1') (shiftCol_abs kr e h1)
+        have hY := runEnd_col kr e c2 c2' (op0 ++ Spec.renderCol c1' ++ [':']) (fun op => adjCol_render kr e c2 c2' op g3 h3 g3') (shiftCol_abs kr e h3)
         have := adjustCell_range kr e op0 _ _ _ _ hX hY
         simpa [Spec.render, List.append_assoc] using this
   | rows r1 r2 =>
@@ -126,8 +129,8 @@ theorem operand_rewrite_correct (kr : Bool) (e : Edit) (r r' : Spec.Ref) (op0 : 
         subst hs
         obtain ⟨g2, g4⟩ := hg
         obtain ⟨g2', g4'⟩ := hg'
-        have hX := runEnd_row kr e r1 r1' op0 g2 h2 g2'
-        have hY := runEnd_row kr e r2 r2' (op0 ++ Spec.renderRow r1' ++ [':']) g4 h4 g4'
+        have hX := runEnd_row kr e r1 r1' op0 (fun op => adjRow_render kr e r1 r1' op g2 h2 g2') (shiftRow_abs kr e h2)
+        have hY := runEnd_row kr e r2 r2' (op0 ++ Spec.renderRow r1' ++ [':']) (fun op => adjRow_render kr e r2 r2' op g4 h4 g4') (shiftRow_abs kr e h4)
         have := adjustCell_range kr e op0 _ _ _ _ hX hY
         simpa [Spec.render, List.append_assoc] using this
 
@@ -617,6 +620,164 @@ theorem operand_rewrite_parse (kr : Bool) (e : Edit) (r r' : Spec.Ref)
     (Impl.adjustCell kr e [] (Spec.render r)).toOption.bind Spec.parseRef = some r' := by
   rw [operand_rewrite_correct kr e r r' [] hg hs hg']
   simp [Except.toOption, parse_render r' (inGrid_pos hg')]
+
+/-! ## Inside the excluded region: what the code does with a deleted endpoint -/
+
+/-- **operand_rewrite_total** — the rewriter is characterised on EVERY in-grid reference, deleted
+endpoints included: the output is the rendering of `Spec.slideRef`, where every moving coordinate
+`i ≥ num` becomes `max 1 (i + offset)` (`Spec.slideIdx`). `operand_rewrite_correct` is the special
+case in which no endpoint is deleted (`shiftRef_slide`). Hypotheses: Go's `int` does not overflow on
+`index + offset` (`offOk`) and the result stays in the grid (otherwise: `leaves_grid_is_error`). -/
+theorem operand_rewrite_total (kr : Bool) (e : Edit) (r : Spec.Ref) (op0 : Str) (ho : offOk e)
+    (hg : Spec.inGrid r) (hg' : Spec.inGrid (Spec.slideRef kr e r)) :
+    Impl.adjustCell kr e op0 (Spec.render r) = .ok (op0 ++ Spec.render (Spec.slideRef kr e r)) := by
+  cases r with
+  | cell c ro =>
+    obtain ⟨g1, g2⟩ := hg
+    obtain ⟨g1', g2'⟩ := hg'
+    exact adjustCell_single kr e op0 _ _
+      (runEnd_cell kr e c _ ro _ op0 (fun op => adjCol_slide kr e c op ho g1 g1') (slideCol_abs kr e c)
+        (fun op => adjRow_slide kr e ro op ho g2 g2') (slideRow_abs kr e ro))
+  | range c1 r1 c2 r2 =>
+    obtain ⟨g1, g2, g3, g4⟩ := hg
+    obtain ⟨g1', g2', g3', g4'⟩ := hg'
+    have hX := runEnd_cell kr e c1 _ r1 _ op0 (fun op => adjCol_slide kr e c1 op ho g1 g1') (slideCol_abs kr e c1)
+      (fun op => adjRow_slide kr e r1 op ho g2 g2') (slideRow_abs kr e r1)
+    have hY := runEnd_cell kr e c2 _ r2 _
+      (op0 ++ (Spec.renderCol (Spec.slideCol kr e c1) ++ Spec.renderRow (Spec.slideRow kr e r1)) ++ [':'])
+      (fun op => adjCol_slide kr e c2 op ho g3 g3') (slideCol_abs kr e c2)
+      (fun op => adjRow_slide kr e r2 op ho g4 g4') (slideRow_abs kr e r2)
+    have := adjustCell_range kr e op0 _ _ _ _ hX hY
+    simpa [Spec.render, Spec.slideRef, List.append_assoc] using this
+  | cols c1 c2 =>
+    obtain ⟨g1, g3⟩ := hg
+    obtain ⟨g1', g3'⟩ := hg'
+    have hX := runEnd_col kr e c1 _ op0 (fun op => adjCol_slide kr e c1 op ho g1 g1') (slideCol_abs kr e c1)
+    have hY := runEnd_col kr e c2 _ (op0 ++ Spec.renderCol (Spec.slideCol kr e c1) ++ [':'])
+      (fun op => adjCol_slide kr e c2 op ho g3 g3') (slideCol_abs kr e c2)
+    have := adjustCell_range kr e op0 _ _ _ _ hX hY
+    simpa [Spec.render, Spec.slideRef, List.append_assoc] using this
+  | rows r1 r2 =>
+    obtain ⟨g2, g4⟩ := hg
+    obtain ⟨g2', g4'⟩ := hg'
+    have hX := runEnd_row kr e r1 _ op0 (fun op => adjRow_slide kr e r1 op ho g2 g2') (slideRow_abs kr e r1)
+    have hY := runEnd_row kr e r2 _ (op0 ++ Spec.renderRow (Spec.slideRow kr e r1) ++ [':'])
+      (fun op => adjRow_slide kr e r2 op ho g4 g4') (slideRow_abs kr e r2)
+    have := adjustCell_range kr e op0 _ _ _ _ hX hY
+    simpa [Spec.render, Spec.slideRef, List.append_assoc] using this
+
+/-- outside the excluded region the two descriptions coincide -/
+theorem shiftRef_slide (kr : Bool) (e : Edit) (r r' : Spec.Ref) (hs : Spec.shiftRef kr e r = some r')
+    (hp : Spec.Ref.pos r') : Spec.slideRef kr e r = r' := by
+  cases r with
+  | cell c ro =>
+    simp only [Spec.shiftRef] at hs
+    cases hc : Spec.shiftCol kr e c with
+    | none => simp [hc] at hs
+    | some c' =>
+      cases hr : Spec.shiftRow kr e ro with
+      | none => simp [hc, hr] at hs
+      | some ro' =>
+        simp only [hc, hr, Option.some.injEq] at hs
+        subst hs
+        simp only [Spec.Ref.pos] at hp
+        simp [Spec.slideRef, shiftCol_slide hc hp.1, shiftRow_slide hr hp.2]
+  | range c1 r1 c2 r2 =>
+    simp only [Spec.shiftRef] at hs
+    cases h1 : Spec.shiftCol kr e c1 with
+    | none => simp [h1] at hs
+    | some c1' =>
+      cases h2 : Spec.shiftRow kr e r1 with
+      | none => simp [h1, h2] at hs
+      | some r1' =>
+        cases h3 : Spec.shiftCol kr e c2 with
+        | none => simp [h1, h2, h3] at hs
+        | some c2' =>
+          cases h4 : Spec.shiftRow kr e r2 with
+          | none => simp [h1, h2, h3, h4] at hs
+          | some r2' =>
+            simp only [h1, h2, h3, h4, Option.some.injEq] at hs
+            subst hs
+            simp only [Spec.Ref.pos] at hp
+            simp [Spec.slideRef, shiftCol_slide h1 hp.1, shiftRow_slide h2 hp.2.1, shiftCol_slide h3 hp.2.2.1,
+              shiftRow_slide h4 hp.2.2.2]
+  | cols c1 c2 =>
+    simp only [Spec.shiftRef] at hs
+    cases h1 : Spec.shiftCol kr e c1 with
+    | none => simp [h1] at hs
+    | some c1' =>
+      cases h3 : Spec.shiftCol kr e c2 with
+      | none => simp [h1, h3] at hs
+      | some c2' =>
+        simp only [h1, h3, Option.some.injEq] at hs
+        subst hs
+        simp only [Spec.Ref.pos] at hp
+        simp [Spec.slideRef, shiftCol_slide h1 hp.1, shiftCol_slide h3 hp.2]
+  | rows r1 r2 =>
+    simp only [Spec.shiftRef] at hs
+    cases h2 : Spec.shiftRow kr e r1 with
+    | none => simp [h2] at hs
+    | some r1' =>
+      cases h4 : Spec.shiftRow kr e r2 with
+      | none => simp [h2, h4] at hs
+      | some r2' =>
+        simp only [h2, h4, Option.some.injEq] at hs
+        subst hs
+        simp only [Spec.Ref.pos] at hp
+        simp [Spec.slideRef, shiftRow_slide h2 hp.1, shiftRow_slide h4 hp.2]
+
+/-- **deleted_endpoint_lands_before_block** — the excluded region made explicit. An index inside
+the deleted block (`num ≤ i < num - off`, `off < 0`) has no relocation (`shiftIdx = none`), and the
+code moves it to `max 1 (i + off)`, which lies strictly before the block start `num` (or is 1):
+a position whose cell was not moved by the edit, i.e. a *different* cell than the one referenced. -/
+theorem deleted_endpoint_lands_before_block (num off : Int) (i : Nat) (hoff : off < 0)
+    (h1 : num ≤ (i : Int)) (h2 : (i : Int) < num - off) :
+    Spec.shiftIdx num off i = none ∧
+    Spec.slideIdx num off i = (max 1 ((i : Int) + off)).toNat ∧
+    (((Spec.slideIdx num off i : Nat) : Int) < num ∨ Spec.slideIdx num off i = 1) := by
+  have hlt : ¬ ((i : Int) < num) := by omega
+  refine ⟨?_, slideIdx_ge h1, ?_⟩
+  · unfold Spec.shiftIdx
+    have a : ¬ (0 ≤ off) := by omega
+    have b : ¬ (num - off ≤ (i : Int)) := by omega
+    simp [hlt, a, b]
+  · rw [slideIdx_ge h1]
+    omega
+
+/-- consequence for a reference to a single cell in a deleted row (`num ≥ 2`, one row deleted, the API's
+only deletion): the rewritten reference denotes the cell that was directly above the deleted one —
+which the original reference did not denote. (Excel: `#REF!`.) -/
+theorem deleted_cell_ref_denotes_neighbour (c : Spec.ColEnd) (num : Nat) (hn : 2 ≤ num) (abs : Bool) :
+    Spec.shiftRef false ⟨.rows, num, -1⟩ (.cell c ⟨abs, num⟩) = none ∧
+    Spec.slideRef false ⟨.rows, num, -1⟩ (.cell c ⟨abs, num⟩) = .cell c ⟨abs, num - 1⟩ ∧
+    Spec.shiftPos ⟨.rows, num, -1⟩ (c.n, num - 1) = some (c.n, num - 1) ∧
+    ¬ Spec.denote (.cell c ⟨abs, num⟩) (c.n, num - 1) := by
+  have d := deleted_endpoint_lands_before_block (num : Int) (-1) num (by omega) (by omega) (by omega)
+  refine ⟨?_, ?_, ?_, ?_⟩
+  · simp [Spec.shiftRef, Spec.shiftCol, Spec.shiftRow, Spec.moves, d.1]
+  · have : Spec.slideIdx (num : Int) (-1) num = num - 1 := by rw [d.2.1]; omega
+    simp [Spec.slideRef, Spec.slideCol, Spec.slideRow, Spec.moves, this]
+  · have : ((num - 1 : Nat) : Int) < (num : Int) := by omega
+    simp [Spec.shiftPos, shiftIdx_lt this]
+  · simp [Spec.denote]; omega
+
+/-- consequence for a range whose FIRST row is the deleted one: the rewritten range starts one row
+too early — it additionally denotes the cell above the old range (`A3:A5`, delete row 3 → `A2:A4`,
+which contains the old `A2`; Excel gives `A3:A4`). When the LAST row is the deleted one the code's
+answer is the right one (`A1:A3`, delete row 3 → `A1:A2`). -/
+theorem deleted_range_start_denotes_extra (c : Spec.ColEnd) (a b : Nat) (ha : 2 ≤ a) (hab : a < b) :
+    Spec.slideRef false ⟨.rows, a, -1⟩ (.range c ⟨false, a⟩ c ⟨false, b⟩) = .range c ⟨false, a - 1⟩ c ⟨false, b - 1⟩ ∧
+    Spec.denote (.range c ⟨false, a - 1⟩ c ⟨false, b - 1⟩) (c.n, a - 1) ∧
+    Spec.shiftPos ⟨.rows, a, -1⟩ (c.n, a - 1) = some (c.n, a - 1) ∧
+    ¬ Spec.denote (.range c ⟨false, a⟩ c ⟨false, b⟩) (c.n, a - 1) := by
+  have s1 : Spec.slideIdx (a : Int) (-1) a = a - 1 := by rw [slideIdx_ge (by omega)]; omega
+  have s2 : Spec.slideIdx (a : Int) (-1) b = b - 1 := by rw [slideIdx_ge (by omega)]; omega
+  refine ⟨?_, ?_, ?_, ?_⟩
+  · simp [Spec.slideRef, Spec.slideCol, Spec.slideRow, Spec.moves, s1, s2]
+  · simp [Spec.denote]
+  · have : ((a - 1 : Nat) : Int) < (a : Int) := by omega
+    simp [Spec.shiftPos, shiftIdx_lt this]
+  · simp [Spec.denote]; omega
 
 /-! ## Where the current code does not satisfy the full statement -/
 
